@@ -360,13 +360,20 @@ type c16Special struct {
 	Ärger         string
 	XXX_sizecache int
 	Plain         int
+	// exported Go names that differ from the language's word operators only by case
+	IN, OR, AND, NOT, In, Or, Matches, NIL, TRUE, Len int
+	Gate                                              c16Gate
 }
+
+type c16Gate struct{ OR, AND, IN, Not int }
+
+func (c16Special) ALL() int { return 7 }
 
 func (c16Special) Élan() int       { return 1 }
 func (c16Special) XXX_Method() int { return 2 }
 
 func c16SpecialNames(r *report.Run, evals *int64) {
-	env := c16Special{Ölstand: 1, Ärger: "a", XXX_sizecache: 3, Plain: 4}
+	env := c16Special{Ölstand: 1, Ärger: "a", XXX_sizecache: 3, Plain: 4, IN: 1, OR: 2, AND: 3, NOT: 4, In: 5, Or: 6, Matches: 7, NIL: 8, TRUE: 9, Len: 10, Gate: c16Gate{1, 2, 3, 4}}
 	builtinDoc := map[string]bool{}
 	for k := range docgen.Builtins {
 		builtinDoc[string(k)] = true
@@ -376,7 +383,20 @@ func c16SpecialNames(r *report.Run, evals *int64) {
 	}
 	doc := docgen.CreateDoc(env)
 	order := int64(1)<<40 + 1000
-	for _, n := range []string{"Ölstand", "Ärger", "XXX_sizecache", "Plain", "Élan", "XXX_Method", "ölstand"} {
+	for _, n := range []string{"Gate.OR", "Gate.AND", "Gate.IN", "Gate.Not", "IN + 1", "OR + AND", "NOT + 1", "In + Or + Matches + NIL + TRUE + Len", "ALL()"} {
+		// Go resolves every one of these members: the checker must accept them and the run must read the member
+		*evals++
+		order++
+		p, err := c16Compile(n, expr.Env(env))
+		if err != nil {
+			r.Report(report.Violation{Sub: "family", Kind: "go-resolvable-member rejected", Witness: "special name " + n, Order: order, Detail: map[string]interface{}{"error": err.Error()}})
+			continue
+		}
+		if out, err := c16Run(p, env); err != nil || reflect.TypeOf(out) != reflect.TypeOf(0) {
+			r.Report(report.Violation{Sub: "accepted-name", Kind: "unresolvable-at-run-time", Witness: "special name " + n, Order: order, Detail: map[string]interface{}{"error": fmt.Sprint(err), "result": fmt.Sprint(out)}})
+		}
+	}
+	for _, n := range []string{"Ölstand", "Ärger", "XXX_sizecache", "Plain", "Élan", "XXX_Method", "ölstand", "IN", "OR", "AND", "NOT", "In", "Matches", "NIL", "ALL"} {
 		*evals++
 		order++
 		_, e1 := c16Compile(n, expr.Env(env))
